@@ -194,14 +194,18 @@ REQUIRED_THEOREMS["C05"] = ["C05_lin_iff_conn", "C05_walk_visits_once", "C05_wal
 REQUIRED_THEOREMS["C07"] = ["C07_array_write", "C07_pixels", "C07_getPixels", "C07_as_painted", "C07_step_paint_partial",
                             "C07_step_addNode", "C07_step_delNode", "C07_step_noarray", "C07_undo_bits_updSeg", "C07_undo_bits_delNode"]
 REQUIRED_THEOREMS["C08"] = ["C08_meas_update", "C08_meas_step_updSeg", "C08_meas_step_addNode", "C08_meas_step_delNode",
-                            "C08_meas_step_noarray", "C08_meas_step_updAttrs", "C08_bulk"]
+                            "C08_meas_step_noarray", "C08_meas_step_updAttrs", "C08_bulk",
+                            # R6P: every command list of the primitive protocol, on ANY graph (merges, cycles)
+                            "C08_prim_reach", "C08_prim_inv_admissible", "C08_prim_frozen", "C08_prim_reach_pixels",
+                            "C08_counterexample_prim_stale_after_reenable", "C08_prim_reach_needs_labels_in_frame"]
 REQUIRED_THEOREMS["C09"] = ["C09_value", "C09_bulk", "C09_bulk_measOK", "C09_incr_addEdge", "C09_incr_updSeg", "C09_agree",
                             "C09_counterexample_unfixed",
                             # R5F: the IoU code paths as written (frame-pair grouping, edge-list removal,
                             # leftovers -> 0, masked incremental) are equal to the per-edge model on any DAG
                             "C09_computeIous_spec", "C09_faithful_bulk_eq", "C09_faithful_bulk_true",
                             "C09_faithful_incr_eq", "C09_variant_bytarget_differs",
-                            "C09_variant_nosrcmask_differs", "C09_variant_setdefault_differs"]
+                            "C09_variant_nosrcmask_differs", "C09_variant_setdefault_differs",
+                            "C09_prim_reach", "C09_prim_reach_measOK", "C09_prim_reach_faithful", "C09_prim_frozen"]
 REQUIRED_THEOREMS["C01"] = ["C01_prim_addEdge", "C01_prim_addEdge_law", "C01_prim_delEdge", "C01_group", "C01_group_rollback",
                             "C01_note_updAttrs_fresh_key"]
 REQUIRED_THEOREMS["C10"] = ["C10_unknown", "C10_protected", "C10_protected_any_activation", "C10_registry_enable",
@@ -228,6 +232,9 @@ REQUIRED_THEOREMS["C03"] = ["C03_acyclic", "C03_forest_reading", "C03_step_delet
                             "C03_refuse_triple", "C03_refuse_triple_forced", "C03_force_minimal",
                             "C03_hyp_needed_addNode_book", "C03_hyp_needed_addNode_tid", "C03_hyp_needed_deleteNode_book",
                             "C03_hyp_needed_deleteNode_tid"]
+REQUIRED_THEOREMS["C04"] += ["C04_import_inv", "C04_import_inv_table", "C04_import_ids", "C04_import_needs_forward",
+                             "C04_import_needs_binary"]   # R6I: an imported solution satisfies Inv
+REQUIRED_THEOREMS["C03"] += ["C03_reach_imported", "C03_reach_imported_table"]
 REQUIRED_THEOREMS["C04"] += ["C04_step_addEdge", "C04_frame_addEdge", "C04_step_swap", "C04_frame_swap",
                              "C04_valid_uDeleteEdge", "C04_valid_uAddEdge", "C04_valid_uSwap"]
 REQUIRED_THEOREMS["C05"] += ["C05_frame_swap"]
